@@ -1,7 +1,7 @@
 """C18 - the CLI writes a usable CA and end-entity pair for any valid options."""
 import formula as F
 import common
-from interp import core, places, calls_of, roots, Interp, CallV, PhiV, StructV, Via, MutV, Const, Def, ArrayV
+from interp import core, places, calls_of, roots, Interp, CallV, PhiV, StructV, Via, MutV, Const, Def, ArrayV, IterMapV
 import c10
 
 PROP = "C18"
@@ -123,27 +123,80 @@ def order(cfg, crate, rep):
 def names(cfg, crate, ctx, rep):
     # parse_sans vs CertificateParams::new
     rep.fn("parse_sans", "cert::PemCertifiedKey::write")
-    b = crate.body("parse_sans")
+    def classify(cr, fn, coll):
+        """Semantic classification of each input name: the returned collection's element as a case split on the result
+        of parsing that name as an IP address.  Returns a normal form (dict) or {"error": ..}."""
+        I = Interp(cr)
+        out = I.run_fn(fn)
+        v = coll(core(out["value"]))
+        if v is None:
+            return {"error": "result collection not found"}
+        elems = []
+        v0 = core(v)
+        if isinstance(v0, CallV) and v0.callee.endswith("Iterator::collect") and isinstance(core(v0.args[0]), IterMapV):
+            elems = [core(v0.args[0]).result]
+            src = core(core(v0.args[0]).src).r()
+        elif isinstance(v0, MutV):
+            elems = [op[2] for op in v0.ops if op[0] == "call" and op[1] == "push" and len(op) > 2]
+            src = None
+        if len(elems) != 1:
+            return {"error": "expected one element expression, found %d (%s)" % (len(elems), v0.r()[:80])}
+        e = core(elems[0])
+        if isinstance(e, StructV) and e.variant == "Ok":
+            e = core(e.fields["0"])
+        alts = e.alts if isinstance(e, PhiV) else [(True, e)]
+        flat = []
+        for c, x in alts:
+            x0 = core(x)
+            if isinstance(x0, StructV) and x0.variant == "Ok":
+                x0 = core(x0.fields["0"])
+            flat.append((c, x0))
+        parse = [(cal, args, n) for cal, args, n, cond, f in I.calls
+                 if cal.endswith("std::net::IpAddr>::from_str") or (cal.endswith("str>::parse") and "std::net::IpAddr" in n.get("ty", ""))]
+        if len(parse) != 1:
+            return {"error": "expected exactly one IP-address parse, found %d" % len(parse)}
+        cal, args, n = parse[0]
+        elem = core(args[0]).r()
+        pl = "%s(%s)" % (cal, elem)
+        ats = []
+        for c, x in flat:
+            for a in F.atoms(c):
+                if a not in ats:
+                    ats.append(a)
+        if any(a[0] != "variant" or a[1] != pl for a in ats):
+            return {"error": "classification depends on something other than the IP parse: %s" % [F.show_atom(a)[-80:] for a in ats if a[0] != "variant" or a[1] != pl]}
+        res = {"element": elem.split(".")[-1] if "." in elem else elem, "parsed_as": "IpAddr"}
+        for asg in F.assignments(ats + [x for x in [("variant", pl, "Ok"), ("variant", pl, "Err")] if x not in ats]):
+            hit = [x for c, x in flat if F.evalf(c, asg)]
+            which = "Ok" if asg[("variant", pl, "Ok")] else "Err"
+            if len(hit) != 1 or not isinstance(hit[0], StructV):
+                return {"error": "no unique outcome when the parse is %s" % which}
+            h = hit[0]
+            payload = h.fields.get("0")
+            ptxt = core(payload).r() if payload is not None else ""
+            if ptxt == pl + "#Ok.0":
+                src_txt = "parsed address"
+            elif ptxt == elem and isinstance(payload, Via) and any(r.startswith("via:") and "try_into" in r or "try_from" in r for r in roots(payload)):
+                propagated = any(core(tv).r() == elem and "try_" in tv.r() for tv, tn, tf, tc in I.tries)
+                src_txt = "validated name" + (" (error propagated)" if propagated else " (error NOT propagated)")
+            else:
+                src_txt = ptxt[-60:]
+            res[which] = "%s(%s)" % ((h.variant or "?").split("::")[-1], src_txt)
+        return res
 
-    def classify(body):
-        out = {}
-        for n in common.hir_walk(body["hir"]):
-            if n["k"] == "Match" and any((x.get("callee") or "").endswith("FromStr::from_str") or (x.get("callee") or "").endswith("IpAddr::from_str") or "from_str" in (x.get("callee") or "") for x in common.hir_walk(n["scrut"])):
-                st = n["scrut"].get("ty", "")
-                for a in n["arms"]:
-                    p = a["pat"]
-                    v = (p.get("ctor_of") or p.get("def") or "")
-                    ctors = [x.get("ctor_of") or x.get("callee") for x in common.hir_walk(a["body"]) if x["k"] == "Call" and "SanType::" in (x.get("callee") or "")]
-                    validated = any(x["k"] == "Try" for x in common.hir_walk(a["body"]))
-                    out[v] = (sorted({c.split("::")[-1] for c in ctors}), validated)
-                out["scrutinee"] = "IpAddr" if "IpAddr" in st else st
-        return out
-    got = classify(b)
-    want = {"Ok": (["IpAddress"], False), "Err": (["DnsName"], True), "scrutinee": "IpAddr"}
+    def ret_coll(v):
+        return core(v.fields["0"]) if isinstance(v, StructV) and v.variant == "Ok" else v
+
+    def new_coll(v):
+        v = ret_coll(v)
+        return v.fields.get("subject_alt_names") if isinstance(v, StructV) else None
+    got = classify(crate, "parse_sans", ret_coll)
+    want = {"element": "hosts[]", "parsed_as": "IpAddr", "Ok": "IpAddress(parsed address)", "Err": "DnsName(validated name (error propagated))"}
     rep.ob("C18.names", "%s|parse_sans" % cfg, got == want, "IP literals become IpAddress, everything else a validated DnsName (error propagated)", expected=want, found=got)
     rc = ctx.crate(cfg, "rcgen.lib.json")
-    sib = classify(rc.body("certificate::CertificateParams::new"))
-    rep.ob("C18.names", "%s|parse_sans=CertificateParams::new" % cfg, sib == got, "the CLI classifies names exactly like the library constructor (sibling agreement)", expected=sib, found=got)
+    sib = classify(rc, "certificate::CertificateParams::new", new_coll)
+    sib_n = dict(sib, element="*")
+    rep.ob("C18.names", "%s|parse_sans=CertificateParams::new" % cfg, "error" not in sib and sib_n == dict(got, element="*"), "the CLI classifies names exactly like the library constructor (sibling agreement)", expected=sib, found=got)
     # write(): file name template <-> field
     I = Interp(crate)
     I.run_fn("cert::PemCertifiedKey::write")
@@ -251,7 +304,7 @@ def builders(cfg, crate, rep, tables):
             vs = [a[2] for a in F.atoms(c) if a[0] == "variant"]
             algs = sorted({r.split("::")[-1] for r in roots(x) if r.startswith("def:rcgen::PKCS_")})
             be = sorted({r.split("::")[-1] for r in roots(x) if r.startswith("def:") and "::signature::" in r})
-            gens = sorted({c_.split("::")[-2] + "::" + c_.split("::")[-1] for c_ in calls_of(x) if "generate" in c_})
+            gens = sorted({c_.split("::")[-2] + "::" + c_.split("::")[-1] for c_ in calls_of(x) if "generate" in c_ and c_ not in I.inlined})
             if vs:
                 tab[vs[0]] = (algs, be, gens)
     want = {
